@@ -162,6 +162,10 @@ def cases(tier, seed):
     for state in SIBLING_STATES:
         for target in ("binary", "force-dot-license", "fallback-dot-license"):
             yield {"k": "sibling", "state": state, "target": target}
+    for place in SPECIAL_PLACES:
+        for kind in ("fifo", "directory"):
+            for cmd in ("lint", "lint-file", "spdx", "annotate", "convert-dep5"):
+                yield {"k": "special", "place": place, "kind": kind, "cmd": cmd}
     from ..annot import TEMPLATES
 
     for name in TEMPLATES:
@@ -414,6 +418,45 @@ def ev_sibling(c) -> R:
     return r
 
 
+# names the tool opens without having listed them as covered files: something that is no regular file may sit there
+SPECIAL_PLACES = [".reuse/dep5", "REUSE.toml", "src/REUSE.toml", "LICENSES/LicenseRef-x.txt", "LICENSES/0BSD.txt", ".reuse/templates/t.jinja2", "src/b.c.license"]
+SPECIAL_TIMEOUT = 20
+
+
+def ev_special(c) -> R:
+    """A named pipe (no writer: opening it blocks for ever) or a directory where the tool expects a configuration file, a licence text or a
+    template.  Run as a real process with a time limit: the command must end, with a defined status and without a traceback."""
+    import subprocess
+    import sys
+
+    r = R()
+    root = fresh_dir("c16")
+    rec = dict(BASE)
+    rec["src/b.c"] = H + "int b;\n"
+    rec[c["place"]] = {"fifo": True} if c["kind"] == "fifo" else {"dir": True}
+    materialise(root, rec)
+    cmd = c["cmd"]
+    argv = {"lint": ["lint"], "lint-file": ["lint-file", "src/a.py"], "spdx": ["spdx"], "convert-dep5": ["convert-dep5"],
+            "annotate": ["annotate", "--copyright", "Kim", "--year", "2020", *(["--template", "t"] if "templates" in c["place"] else []), "src/a.py"]}[cmd]
+    label = f"{c['place']} is a {c['kind']}: `reuse {' '.join(argv)}`"
+    sig = f"special|{c['place']}|{c['kind']}|{cmd}"
+    env = dict(os.environ, LC_ALL="C.UTF-8", PYTHONIOENCODING="utf-8")
+    try:
+        p = subprocess.run([sys.executable, "-m", "reuse", "--no-multiprocessing", *argv], cwd=str(root), env=env, capture_output=True, text=True, timeout=SPECIAL_TIMEOUT,
+                           stdin=subprocess.DEVNULL)
+    except subprocess.TimeoutExpired:
+        r.violation(f"blocks|{sig}", f"{label} does not end within {SPECIAL_TIMEOUT} s (it waits for a writer to open the pipe)")
+    else:
+        if "Traceback (most recent call last)" in p.stderr:
+            r.violation(f"crash|{sig}", f"{label} ended in a traceback: {p.stderr.strip().splitlines()[-1][:200]}")
+        elif p.returncode not in (0, 1, 2):
+            r.violation(f"exit-status|{sig}", f"{label} exit status {p.returncode}")
+        r.notes.append(f"special-exit{p.returncode}")
+    r.outcome = "special"
+    r.tags.append("special")
+    return r
+
+
 def ev_template(c) -> R:
     """A template file below .reuse/templates is a project file too."""
     from ..annot import template_recipe
@@ -580,7 +623,7 @@ def ev_io(c) -> R:
     return r
 
 
-_EV = {"longname": ev_longname, "expr": ev_expr, "sibling": ev_sibling, "vcsmeta": ev_vcsmeta, "template": ev_template, "glob": ev_glob, "toml": ev_toml, "broken-toml": ev_broken_toml, "dep5": ev_dep5, "bytes": ev_bytes, "licenses": ev_licenses, "io": ev_io}
+_EV = {"special": ev_special, "longname": ev_longname, "expr": ev_expr, "sibling": ev_sibling, "vcsmeta": ev_vcsmeta, "template": ev_template, "glob": ev_glob, "toml": ev_toml, "broken-toml": ev_broken_toml, "dep5": ev_dep5, "bytes": ev_bytes, "licenses": ev_licenses, "io": ev_io}
 
 
 def evaluate(c) -> R:
